@@ -913,14 +913,25 @@ func fmtUint(v uint64, base int) string {
 }
 
 func (m *Machine) hexBytes(b []*sym.Term) []*sym.Term {
+	// exactly what indexing the table "0123456789abcdef" with v>>4 and v&0x0f
+	// produces when that Go code is executed from SSA, so that real code and
+	// reference code yield syntactically identical terms
 	c := m.ctx
+	table := m.str("0123456789abcdef").B
 	out := make([]*sym.Term, 0, 2*len(b))
-	dig := func(n *sym.Term) *sym.Term {
-		d := c.Zext(n, 8)
-		return c.Ite(c.Ult(d, c.BV(10, 8)), c.Bin(sym.OpAdd, d, c.BV('0', 8)), c.Bin(sym.OpAdd, d, c.BV('a'-10, 8)))
-	}
 	for _, x := range b {
-		out = append(out, dig(c.Extract(x, 7, 4)), dig(c.Extract(x, 3, 0)))
+		hi := c.Zext(c.Bin(sym.OpLshr, x, c.BV(4, 8)), 64)
+		lo := c.Zext(c.Bin(sym.OpBvAnd, x, c.BV(0x0f, 8)), 64)
+		if hi.IsConst() {
+			out = append(out, table[hi.Val])
+		} else {
+			out = append(out, m.iteChain(hi, table))
+		}
+		if lo.IsConst() {
+			out = append(out, table[lo.Val])
+		} else {
+			out = append(out, m.iteChain(lo, table))
+		}
 	}
 	return out
 }
